@@ -261,6 +261,26 @@ def gen_c10_case(r, kind=None):
             t.add_file((d + '/' if d else '') + 'newfile', b'new')
             cand += [(d + '/' if d else '') + 'newfile'] * 2
         upd = ['update_path', r.choice(cand), r.choice(['DATA', 'DATA', 'MISC', 'EBUILD', 'MANIFEST', 'AUX']), r.choice([[], [c.opts[0]]])]
+    if kind in ('plain', 'discard') and r.random() < 0.35:
+        # a file entry for a local copy of a distfile that has been deleted since, beside the DIST entry of the same name in the
+        # same Manifest: the update drops the entry of the vanished file - and only that one
+        import hashlib
+        mans = [(p2, ino) for p2, ino in t.files() if os.path.basename(p2) == 'Manifest' and isinstance(t.nodes[ino].get('data'), (bytes, bytearray))]
+        if mans:
+            mp, ino = r.choice(mans)
+            name = 'dist-%d.tar.gz' % r.randint(0, 3)
+            dd = os.path.dirname(mp)
+            if t.lookup((dd + '/' if dd else '') + name) is None:
+                text = bytes(t.nodes[ino]['data'])
+                if text and not text.endswith(b'\n'):
+                    text += b'\n'
+                h = hashlib.sha1(b'hello').hexdigest()
+                if ('DIST ' + name + ' ').encode() not in text:
+                    text += ('DIST %s 5 SHA1 %s\n' % (name, h)).encode()
+                text += ('%s %s 5 SHA1 %s\n' % (r.choice(['DATA', 'DATA', 'MISC']), name, h)).encode()
+                t.nodes[ino]['data'] = text
+                t.nodes[ino]['size'] = len(text)
+                c.meta.setdefault('vanished_local_distfiles', []).append((dd + '/' if dd else '') + name)
     pre = []
     for _ in range(r.randint(0, 3)):
         k = r.random()
@@ -371,6 +391,8 @@ def c10_check_case(ctx, c, out, report):
     # a forced save loads (and may recompress) further Manifests: the earlier names of loaded Manifests
     logic = {logical(x) for x in mans}
     mans |= {p for p in first if logical(p) in logic and os.path.basename(p).startswith('Manifest')}
+    # a file that the caller has just declared a Manifest (update_entry_for_path(path, new_entry_type='MANIFEST')) is one
+    mans |= {op[1] for op in ops if op[0] == 'update_path' and op[2] == 'MANIFEST'}
     # (a) no file other than Manifest files is modified, created or deleted
     for p in sorted(set(first) | set(post)):
         if p in mans:
